@@ -32,7 +32,7 @@ package plan
 //@   pure-call
 //@   ensures ret1 == nil ==> ret0 == valueOf(n)
 
-//@ property C01: adjustShardIndex, getFindTableIndexesFunc$1, getShardBetweenExprRouteResult
+//@ property C01: adjustShardIndex, getFindTableIndexesFunc$1, getShardBetweenExprRouteResult, getColumnInfoFromColumnName, checkValueType, getBroadcastValueMap, getPatternInRouteResult
 
 // BETWEEN l AND r keeps every table holding a key with l <= k <= r; NOT BETWEEN every table holding k < l or k > r
 //@ func getShardBetweenExprRouteResult
@@ -94,6 +94,40 @@ package plan
 //@   ensures case sound:     forall(x int, mem(r.indexes, x) ==> mem(old(r.indexes), x) || mem(indexes, x))
 //@   ensures case complete1: forall(x int, mem(old(r.indexes), x) ==> mem(r.indexes, x))
 //@   ensures case complete2: forall(x int, mem(indexes, x) ==> mem(r.indexes, x))
+
+// column IN (v1, ..., vn) on the sharding column: the route lists the table of EVERY value, and the value list rewritten for a
+// table contains every value placed there (vpos[j] = position of value j in its table's list); NOT IN, other columns and global
+// tables are not pruned: every table, each with the whole value list
+//@ ghost vpos map[int]int
+//@ trusted sort.Ints
+//@   params x
+//@   assigns x[0:len(x)]
+//@   ensures forall(v int, mem(x, v) <==> old(mem(x, v)))
+//@ func getColumnInfoFromColumnName
+//@   requires t != nil
+//@   assigns \nothing
+//@   ensures ret2 == t.Name.L
+//@ pure inPlace(rule router.Rule, values []ast.ExprNode, j int) int = place(shardOf(rule), valueOf(unbox(values[j], *driver.ValueExpr)))
+//@ func checkValueType
+//@   assigns \nothing
+//@   loop 0 invariant forall(k, 0, rangeindex + 1, typeis(values[k], *driver.ValueExpr))
+//@   ensures ret0 == nil ==> forall(k, 0, len(values), typeis(values[k], *driver.ValueExpr))
+//@ func getBroadcastValueMap
+//@   assigns \nothing
+//@   loop 0 invariant ret != nil && fresh(ret) && forall(i, 0, rangeindex + 1, has(ret, subTableIndexes[i])) && forall(idx int, has(ret, idx) ==> ret[idx] == nil || fresh(ret[idx]))
+//@   ensures ret0 != nil && fresh(ret0) && forall(i, 0, len(subTableIndexes), has(ret0, subTableIndexes[i]))
+//@ func getPatternInRouteResult
+//@   requires rule != nil && n != nil
+//@   assigns vpos
+//@   ghost-update after call FindTableIndex#0: vpos[rangeindex + 1] = ite(has(valueMap, ret0), len(valueMap[ret0]), 0)
+//@   loop 0 invariant case shape uses: valueMap != nil && fresh(valueMap) && (indexes == nil || fresh(indexes))
+//@   loop 0 invariant case typed uses: forall(k, 0, len(values), typeis(values[k], *driver.ValueExpr))
+//@   loop 0 invariant case listed uses shape: forall(idx int, has(valueMap, idx) ==> mem(indexes, idx) && (valueMap[idx] == nil || (fresh(valueMap[idx]) && allocated(valueMap[idx]))))
+//@   loop 0 invariant case apart uses shape, listed: forall(a int, forall(b int, has(valueMap, a) && has(valueMap, b) && a != b && valueMap[a] != nil ==> !sameArray(valueMap[a], valueMap[b])))
+//@   loop 0 invariant case placed uses shape, typed, listed, apart: forall(j, 0, rangeindex + 1, has(valueMap, inPlace(rule, values, j)) && 0 <= vpos[j] && vpos[j] < len(valueMap[inPlace(rule, values, j)]) && valueMap[inPlace(rule, values, j)][vpos[j]] == values[j] && -(1<<32) <= inPlace(rule, values, j) && inPlace(rule, values, j) <= 1<<32)
+//@   ensures case broadcast: ret2 == nil && (ruleType(rule) == router.GlobalTableRuleType || isNotIn || shardCol(rule) != n.Name.L) ==> ret0 == subTables(rule) && forall(i, 0, len(ret0), has(ret1, ret0[i]))
+//@   ensures case routed:  ret2 == nil && ruleType(rule) != router.GlobalTableRuleType && !isNotIn && shardCol(rule) == n.Name.L ==> forall(j, 0, len(values), mem(ret0, inPlace(rule, values, j)))
+//@   ensures case values:  ret2 == nil && ruleType(rule) != router.GlobalTableRuleType && !isNotIn && shardCol(rule) == n.Name.L ==> forall(j, 0, len(values), has(ret1, inPlace(rule, values, j)) && 0 <= vpos[j] && vpos[j] < len(ret1[inPlace(rule, values, j)]) && ret1[inPlace(rule, values, j)][vpos[j]] == values[j])
 
 // AND may prune with either side; OR may prune only when both sides prune (otherwise: no pruning).
 // A side "has" a result when it is a sound over-approximation of the tables its condition can match.
